@@ -366,6 +366,8 @@ class KademliaProtocol(DatagramProtocol):
             rpc_peer = self.get_rpc_peer(some_peer)
             try:
                 await rpc_peer.ping()
+            except asyncio.TimeoutError:
+                raise  # no answer in time is evidence against the incumbent (TimeoutError is an OSError subclass)
             except OSError as err:
                 # the ping could not even be sent: no evidence against the incumbent, it keeps its place
                 log.warning("could not send liveness probe to %s:%s: %s", some_peer.address, some_peer.udp_port, err)
